@@ -401,6 +401,64 @@ def run_verus(unit, src_text, workdir, seed=0, rlimit=None, threads=None):
     return js, pr.stderr, wall, " ".join(cmd)
 
 
+
+# ---------------------------------------------------------------------------------------------------------------
+# Trait-impl scopes: a function ADDED to an `impl Trait for Type` block that has functions under contract overrides a
+# provided method of the trait (e.g. `Iterator::nth`), i.e. changes behaviour that no template item sees.  The function
+# names of every such block at the time the contracts were written are recorded in contracts/scope_baseline.json; a new
+# name makes the unit inconclusive (never an alarm): the bounded differential exploration then speaks for the property.
+def _scope_fn_names(relpath, scope_parts):
+    src, toks = repo_tokens(relpath)
+    scopes = [(0, len(toks))]
+    for p_ in scope_parts:
+        nxt = []
+        for lo, hi in scopes:
+            nxt.extend(rustlex.find_scope(toks, lo, hi, p_))
+        scopes = nxt
+    names = set()
+    for lo, hi in scopes:
+        j = lo
+        while j < hi:
+            t = toks[j].text
+            if t == "{":
+                j = rustlex.match_close(toks, j) + 1
+                continue
+            if t == "fn" and j + 1 < hi:
+                names.add(toks[j + 1].text)
+            j += 1
+    return sorted(names)
+
+
+def trait_impl_scopes(items):
+    out = {}
+    for it in items:
+        parts = [x.strip() for x in it["item"].split(" :: ")]
+        if len(parts) < 2 or not parts[-1].startswith("fn "):
+            continue
+        header = parts[-2]
+        if not header.startswith("impl") or " for " not in header:
+            continue
+        out.setdefault((it["file"], tuple(parts[:-1])), None)
+    return sorted(out)
+
+
+def check_scope_baseline(items):
+    bp = os.path.join(VERIF, "contracts", "scope_baseline.json")
+    base = json.load(open(bp)) if os.path.exists(bp) else {}
+    for relpath, scope in trait_impl_scopes(items):
+        key = relpath + " :: " + " :: ".join(scope)
+        if key not in base:
+            continue
+        try:
+            cur = _scope_fn_names(relpath, scope)
+        except Exception:  # noqa: BLE001
+            continue
+        new = [n for n in cur if n not in base[key]]
+        if new:
+            raise Inconclusive("new function(s) %s in `%s` of %s are not under contract (a method added to a trait impl overrides a "
+                               "provided method of the trait)" % (new, scope[-1], relpath))
+
+
 def load_units():
     # VERIF_UNITS: development only (a unit registry being worked on, not yet registered)
     return json.load(open(os.environ.get("VERIF_UNITS") or os.path.join(VERIF, "units.json")))
@@ -415,6 +473,7 @@ def verify_unit(unit, workdir, seed=0, keep=False):
     u = load_units()[unit]
     tpl = os.path.join(VERIF, "contracts", u["template"] + ".vrs")
     text, items = expand(tpl, u.get("defines"))
+    check_scope_baseline(items)
     js, stderr, wall, cmd = run_verus(unit, text, workdir, seed)
     vr = js.get("verification-results", {})
     diags = parse_diagnostics(stderr)
